@@ -49,6 +49,7 @@ func c14InitMaps() {
 	tm["[tree"] = reflect.TypeOf(zoo.Tree{})
 	tm["j"] = reflect.TypeOf(zoo.JMap{})
 	tm["[[int"] = reflect.TypeOf([][]int32{})
+	tm["[m"] = reflect.TypeOf([]map[string]int64{})
 	c14Maps[0] = tm
 	c14Maps[1] = map[string]reflect.Type{}
 	// wrong: every name mapped to the type of the next name (classes to other
